@@ -595,7 +595,7 @@ func caseLoadReject(t *testing.T, tp *simrt.Tape, c *Ctx) (res Result) {
 }
 
 func init() {
-	register(&PropSpec{ID: "C09", Engine: "load", Fn: caseRoundTrip, Quick: 800000, Thorough: 2000000, Level: "exploration",
+	register(&PropSpec{ID: "C09", Engine: "load", Fn: caseRoundTrip, Quick: 600000, Thorough: 6000000, Level: "exploration",
 		Rule:   "a case = by-construction warrior (legal in the dialect, fields across [0,M) incl. M/2, M/2+1) printed in the canonical load-file layout with drawn field spellings (unsigned, signed, congruent beyond M) and layout-only perturbations (case, blanks/tabs, CR-LF, comment and blank lines, metadata, trailing comments, missing final newline), delivered through the simulated reader (chunking, zero-length reads, EOF style, two-chunk boundary); read by ParseLoadFile (plain and drawn delivery; thorough: every two-chunk boundary x both EOF styles) and by CompileWarrior under the seeded scheduler; non-trivial = every case; distinct = distinct (text, configuration)",
 		Real:   []string{"load-file reader", "lexer/expander/parser/compiler (assembler side, under the scheduler)"},
 		Stubs:  []string{"io.Reader (simulated stream)", "goroutine scheduling choice", "map iteration order", "time (tick clock)"},
